@@ -83,3 +83,14 @@ Print Assumptions C12_current_during_teardown.
 Theorem C12_reset_on_exit : forall has_parent, after_exit has_parent = Around false false false.
 Proof. exact everything_released. Qed.
 Print Assumptions C12_reset_on_exit.
+
+(* the same for EVERY exit stack on which the teardown callbacks are pushed last (whatever else is on it, in
+   whatever order): what is pushed last is unwound first, with everything still in place; and that is where the
+   source on this run pushes them *)
+Theorem C12_pushed_last_sees_everything : forall l a, seen_from (rev (l ++ [E_teardown_callbacks])) a = Some a.
+Proof. exact pushed_last_sees_everything. Qed.
+Print Assumptions C12_pushed_last_sees_everything.
+
+Theorem C12_teardown_callbacks_pushed_last : forall has_parent, exists l, exit_entries has_parent = l ++ [E_teardown_callbacks].
+Proof. exact teardown_callbacks_pushed_last. Qed.
+Print Assumptions C12_teardown_callbacks_pushed_last.
